@@ -17,7 +17,7 @@ type SigTable map[string]*contract.Func
 // Family finds the generator function contract serving a request.
 //
 //	serves: <plugin> len=<n> <param>=typs[<i>] | <param>=typs
-func (b *Builder) Family(plugin string, n int) (*contract.Func, map[string]string, error) {
+func (b *Builder) Family(plugin string, n int, kind0 geval.Kind, same ...bool) (*contract.Func, map[string]string, error) {
 	var keys []string
 	for k := range b.Contracts.Funcs {
 		keys = append(keys, k)
@@ -33,6 +33,13 @@ func (b *Builder) Family(plugin string, n int) (*contract.Func, map[string]strin
 			bind := map[string]string{}
 			ok := true
 			for _, w := range ws[1:] {
+				if w == "same" || w == "notsame" {
+					// the request's first two types are (not) the same type
+					if len(same) == 0 || same[0] != (w == "same") {
+						ok = false
+					}
+					continue
+				}
 				kv := strings.SplitN(w, "=", 2)
 				if len(kv) != 2 {
 					continue
@@ -40,6 +47,13 @@ func (b *Builder) Family(plugin string, n int) (*contract.Func, map[string]strin
 				if kv[0] == "len" {
 					m, _ := strconv.Atoi(kv[1])
 					if m != n {
+						ok = false
+					}
+					continue
+				}
+				if kv[0] == "kind" {
+					// the generator function serves requests whose first type has this kind
+					if kind0.String() != kv[1] {
 						ok = false
 					}
 					continue
@@ -90,7 +104,7 @@ func BindRequest(bind map[string]string, typs []*geval.SymType) (map[string]geva
 // Render gives the signature text "(params) results" of the helper that
 // plugin emits for typs, over the instance's prelude types.
 func (st SigTable) Render(in *Instance, plugin string, typs []*geval.SymType) (string, error) {
-	c, bind, err := in.B.Family(plugin, len(typs))
+	c, bind, err := in.B.Family(plugin, len(typs), in.kind0(typs), sameTypes(typs))
 	if err != nil {
 		return "", err
 	}
@@ -193,4 +207,19 @@ func (in *Instance) parseTypeRef(s string, args map[string]geval.Value) (*geval.
 		return nil, 0, fmt.Errorf("%s is not a type (is %T)", name, v)
 	}
 	return t, j, nil
+}
+
+// kind0: the kind of the first type of a request (for generator functions that serve one kind only).
+func (in *Instance) kind0(typs []*geval.SymType) geval.Kind {
+	if len(typs) == 0 {
+		return geval.KUnknown
+	}
+	if f := in.fact(typs[0]); f != nil {
+		return f.Kind
+	}
+	return geval.KUnknown
+}
+
+func sameTypes(typs []*geval.SymType) bool {
+	return len(typs) >= 2 && typs[0].R() == typs[1].R() && typs[0].IsView() == typs[1].IsView()
 }
